@@ -116,7 +116,7 @@ func (c *Ctx) selectionRules() {
 	// the staleness predicate tolerates exactly one block: seqno+1 compared with maxSeqno
 	tol := false
 	for _, p := range pa {
-		if strings.Contains(p, "+1)") && strings.Contains(p, "maxSeqno") {
+		if strings.Contains(p, "+1)") && strings.Contains(p, "Seqno") && (strings.Contains(p, ")<$") || strings.Contains(p, ")>=$")) {
 			tol = true
 		}
 	}
@@ -159,6 +159,19 @@ func (c *Ctx) selectionRules() {
 		})
 		c.check(okSort, R, "the connection list is kept in configuration order (sorted by id after every append)", ad.Pos(), "sort.Slice(p.conns, by ID)", "ConnPool.addConnection no longer sorts the connection list by id after appending: connections are added as their handshakes finish, so the list is not in configuration order and first-working (and the archive scan) pick a later-configured server although an earlier one qualifies")
 	}
+	// the pool's current choice: the field of ConnPool that holds one connection (interface type), whatever it is called
+	bestField := "pool.ConnPool.bestConn"
+	if pp := c.pkg("liteapi/pool"); pp != nil {
+		if tn, ok := pp.Types.Scope().Lookup("ConnPool").(*types.TypeName); ok {
+			if st, ok := tn.Type().Underlying().(*types.Struct); ok {
+				for i := 0; i < st.NumFields(); i++ {
+					if nt, ok := st.Field(i).Type().(*types.Named); ok && nt.Obj().Name() == "conn" {
+						bestField = "pool.ConnPool." + st.Field(i).Name()
+					}
+				}
+			}
+		}
+	}
 	// updateBest: each store to ConnPool.bestConn is dominated by "candidate != nil"
 	nSt := 0
 	okSt := true
@@ -167,7 +180,7 @@ func (c *Ctx) selectionRules() {
 		if !ok {
 			return
 		}
-		if of, ok := ownerField(st.Addr); !ok || of != "pool.ConnPool.bestConn" {
+		if of, ok := ownerField(st.Addr); !ok || of != bestField {
 			return
 		}
 		nSt++
@@ -185,7 +198,11 @@ func (c *Ctx) selectionRules() {
 	// maximum over all connections: maxSeqno is a loop-carried max over c.MasterHead().Seqno of the range over p.conns
 	okMax := false
 	allInstrs(ub, func(_ *ssa.BasicBlock, i ssa.Instruction) {
-		if phi, ok := i.(*ssa.Phi); ok && phi.Comment == "maxSeqno" {
+		// a loop-carried value one of whose updates is a connection's MasterHead().Seqno
+		if phi, ok := i.(*ssa.Phi); ok && inLoop(phi.Block()) && derivesFrom(phi, func(v ssa.Value) bool {
+			cl := callOf(v)
+			return cl != nil && cl.Call.IsInvoke() && cl.Call.Method.Name() == "MasterHead"
+		}, false) {
 			okMax = true
 		}
 	})
@@ -225,7 +242,7 @@ func rejectPredicates(f *ssa.Function) []string {
 		// an edge straight back to the loop header is a "continue"
 		for k, s := range b.Succs {
 			if s == hdr {
-				sh := shape(ifi.Cond, 6)
+				sh := opTree(ifi.Cond, 0)
 				if k == 1 {
 					sh = "!" + sh
 				}
@@ -239,7 +256,7 @@ func rejectPredicates(f *ssa.Function) []string {
 		for k, s := range b.Succs {
 			if len(s.Instrs) > 0 {
 				if r, ok := s.Instrs[len(s.Instrs)-1].(*ssa.Return); ok && len(r.Results) == 1 && !isNilConst(retVal(r, 0)) && len(s.Instrs) <= 2 {
-					sh := shape(ifi.Cond, 6)
+					sh := opTree(ifi.Cond, 0)
 					if k == 0 {
 						sh = "!" + sh
 					}
@@ -296,7 +313,7 @@ func (c *Ctx) updatesBehindFilters(rule string, f *ssa.Function) {
 		if ifi == nil {
 			continue
 		}
-		sh := shape(ifi.Cond, 6)
+		sh := opTree(ifi.Cond, 0)
 		if !(strings.Contains(sh, "IsOK") || strings.Contains(sh, "MasterHead")) {
 			continue
 		}
@@ -395,7 +412,8 @@ func phiSources(ph *ssa.Phi) map[*ssa.BasicBlock]ssa.Value {
 func (c *Ctx) replacementKey(R string, f *ssa.Function) {
 	var best *ssa.Phi
 	allInstrs(f, func(_ *ssa.BasicBlock, in ssa.Instruction) {
-		if ph, ok := in.(*ssa.Phi); ok && ph.Comment == "bestConn" && best == nil {
+		// the running best: the loop-carried value of the connection interface type that the function returns
+		if ph, ok := in.(*ssa.Phi); ok && best == nil && inLoop(ph.Block()) && types.Identical(ph.Type(), f.Signature.Results().At(0).Type()) {
 			best = ph
 		}
 	})
